@@ -10,11 +10,28 @@ open VlsModel.Gen.KeyDeriveUse
 
 /-! ## channelKeys does not see the counters when the table says so -/
 
+theorem channelKeysFromKeysId_indep (P : Prims) (style : Style) (h : (useOf style).basepointIndex = false)
+    (seed : Bytes) (net : Net) (keysId : Bytes) (st st' : KMState) :
+    channelKeysFromKeysId P style seed net keysId st = channelKeysFromKeysId P style seed net keysId st' := by
+  simp only [channelKeysFromKeysId, maskIn, h]
+  rfl
+
 theorem channelKeys_indep (P : Prims) (style : Style) (h : (useOf style).basepointIndex = false)
     (seed : Bytes) (net : Net) (id : Bytes) (st st' : KMState) :
-    channelKeys P style seed net id st = channelKeys P style seed net id st' := by
-  simp only [channelKeys, maskIn, h]
-  rfl
+    channelKeys P style seed net id st = channelKeys P style seed net id st' :=
+  channelKeysFromKeysId_indep P style h seed net _ st st'
+
+/-- the keys id recorded in the key material is the one it was derived from -/
+theorem channelKeysFromKeysId_keysId (P : Prims) (style : Style) (seed : Bytes) (net : Net)
+    (keysId : Bytes) (st : KMState) :
+    (channelKeysFromKeysId P style seed net keysId st).keysId = keysId := rfl
+
+/-- re-deriving from the keys id that a derivation recorded gives the same key material -/
+theorem rederive_from_recorded_keysId (P : Prims) (style : Style)
+    (h : (useOf style).basepointIndex = false) (seed : Bytes) (net : Net) (id : Bytes) (st st' : KMState) :
+    channelKeysFromKeysId P style seed net (channelKeys P style seed net id st).keysId st'
+      = channelKeys P style seed net id st :=
+  channelKeysFromKeysId_indep P style h seed net _ st' st
 
 theorem channelKeys_eq_keysOf (P : Prims) (style : Style) (h : (useOf style).basepointIndex = false)
     (seed : Bytes) (net : Net) (id : Bytes) (st : KMState) :
@@ -100,6 +117,7 @@ theorem keysInv_step {P : Prims} {style : Style} (h : (useOf style).basepointInd
     refine keysInv_updChan hs id _ ?_ s.km
     intro c; split <;> simp
   | entropy => exact hs
+  | sweep => exact hs
   | restart =>
     simp only [step]
     intro c hc
